@@ -18,7 +18,23 @@ LEVEL_NOTE = 'Trusted: Lean kernel + standard axioms; float exactness of the loo
 
 
 def mkvals(vs):
+    """the values as Python numbers / a list, or (content-determined) in a NumPy carrier: the narrowest integer or float dtype that
+    holds every value exactly, or the 64-bit one; scalars as NumPy scalars. What is inferred does not depend on the carrier."""
     out = [int(v) if v.denominator == 1 else to_float(v) for v in vs]
+    h = (len(vs) * 7 + sum(int(v * 16) % 1013 for v in vs)) % 3
+    if h:
+        if all(v.denominator == 1 for v in vs):
+            cands = [np.int8, np.uint8, np.int16, np.uint16, np.int32, np.int64] if h == 1 else [np.int64]
+            dt = next((d for d in cands if all(np.iinfo(d).min <= int(v) <= np.iinfo(d).max for v in vs)), None)
+        else:
+            cands = [np.float16, np.float32, np.float64] if h == 1 else [np.float64]
+            def exact_in(d, v):
+                with np.errstate(all='ignore'):
+                    w = float(d(to_float(v)))
+                return np.isfinite(w) and Fraction(*w.as_integer_ratio()) == v
+            dt = next((d for d in cands if all(exact_in(d, v) for v in vs)), None)
+        if dt is not None:
+            return dt(out[0]) if len(out) == 1 else np.array(out, dtype=dt)
     return out[0] if len(out) == 1 else out
 
 
@@ -39,8 +55,9 @@ def exec_INF(t):
         kw['n_frac'] = int(f)
     if i != '-':
         kw['n_int'] = int(i)
+    carrier = mkvals(vs)          # (built outside the try: an error of the harness must never pass for one of the library)
     try:
-        x = Fxp(mkvals(vs), **kw)
+        x = Fxp(carrier, **kw)
     except Exception as e:
         return [exc_token(e)]
     return observe(x)
@@ -50,8 +67,9 @@ def exec_INC(t):
     sg = t[0]
     vs = [frac(v) for v in parse_list(t[1])]
     kw = {} if sg == 'n' else {'signed': sg == 's'}
+    carrier = mkvals(vs)
     try:
-        x = Fxp(mkvals(vs), **kw)
+        x = Fxp(carrier, **kw)
     except Exception as e:
         return [exc_token(e)]
     return observe(x)
